@@ -38,14 +38,28 @@ def varkey(e):
 
 
 def vars_in(e):
-    """All variable keys read by expression e (maximal attribute chains and their roots)."""
+    """All variable keys read by expression e (maximal attribute chains only)."""
     out = set()
-    for n in walk_expr(e):
+    stack = [e]
+    while stack:
+        n = stack.pop()
+        if isinstance(n, ast.Lambda):
+            continue
         if isinstance(n, (ast.Name, ast.Attribute)):
             k = varkey(n)
             if k:
-                out.add(k)
+                out.add(k)      # maximal chain only: do not descend into its prefixes
+                continue
+        stack.extend(ast.iter_child_nodes(n))
     return out
+
+
+def reads_var(e, var):
+    """Does expression e read variable `var` (or an attribute chain below it)?"""
+    for v in vars_in(e):
+        if v == var or v.startswith(var + "."):
+            return True
+    return False
 
 
 def unawait(e):
@@ -377,7 +391,7 @@ class DataFlow(object):
         for n in self.g.nodes:
             if d in self.reaching(n, d.var):
                 for e in n.exprs():
-                    if d.var in vars_in(_reads_only(n, e)):
+                    if reads_var(_reads_only(n, e), d.var):
                         out.append(n)
                         break
         return out
